@@ -158,7 +158,7 @@ def _tests_sentinel(fn, c, rvars):
     return False
 
 
-def rec(prog, cg, roots, table=None):
+def rec(prog, cg, roots, table=None, member_scope=None):
     """R-REC: every call-graph cycle reachable from the entry points has a depth guard; cycles without one are
     reported (stack exhaustion on nested input)."""
     table = table or load_table()
@@ -166,6 +166,8 @@ def rec(prog, cg, roots, table=None):
     obs = []
     sccs = cg.sccs(reach)
     for comp in sorted(sccs):
+        if member_scope is not None and not any(member_scope(prog.by_key[q]) for q in comp if q in prog.by_key):
+            continue
         name = '{' + ', '.join(c.split('@')[0].split('(')[0] for c in comp) + '}'
         guard = None
         for q in comp:
@@ -186,7 +188,7 @@ def rec(prog, cg, roots, table=None):
             obs.append(Ob('R-REC', fn0.file, fn0.line, fn0.q, 'cycle:' + name, VIOLATED,
                           'recursion cycle %s has no depth guard (a counter compared with a constant before the recursive call, '
                           'returning an error): nesting in the input is bounded only by the C stack' % name))
-    return RuleResult('R-REC', obs, 1, {'cycles': len(sccs)})
+    return RuleResult('R-REC', obs, 1 if member_scope is None else 0, {'cycles': len(sccs)})
 
 
 def _depth_guard(fn, comp):
@@ -222,3 +224,67 @@ def _depth_guard(fn, comp):
                     if x is not None and x['k'] == 'ReturnStmt' and kids(x) and (const(kids(x)[0]) or 0) != 0:
                         return 'depth guard `%s` in %s' % (show(c), fn.q)
     return None
+
+
+def pool_fit(prog, cg):
+    """POOL-FIT: a loop that walks memory pools until `pool->ptr + SZ < pool->len`, allocating a fresh pool of
+    K bytes when it runs out, terminates only if SZ < K: the interval of SZ at the loop (guards of the function, string
+    lengths bounded by the callers' buffers) must lie strictly below K."""
+    from nk.interval import Analyzer, FnIntervals
+    an = Analyzer(prog)
+    an.cg = cg
+    obs = []
+    for fn in prog.functions(lambda f: f.file.startswith('core/')):
+        adds = [c for c in fn.calls() if callee(c) == 'memory_pool_add']
+        if not adds:
+            continue
+        K = min((const(call_args(c)[1]) for c in adds if const(call_args(c)[1]) is not None), default=None)
+        if K is None:
+            continue
+        loops = natural_loops(fn)
+        for h, body in loops.items():
+            exit_cond = None
+            for bid in body:
+                b = fn.blocks[bid]
+                cond = fn.nodes.get(b.get('cond')) if 'cond' in b else None
+                if cond is None:
+                    continue
+                c = strip(cond)
+                if c['k'] == 'BinaryOperator' and c.get('op') in ('<', '<=') and 'len' in show(kids(c)[1]) and '->ptr' in show(kids(c)[0]):
+                    exit_cond = c
+            if exit_cond is None:
+                continue
+            # SZ = lhs minus the `pool->ptr` term
+            lhs = strip(kids(exit_cond)[0], casts=True)
+            terms = []
+            st = [lhs]
+            while st:
+                x = strip(st.pop(), casts=True)
+                if x['k'] == 'BinaryOperator' and x.get('op') == '+':
+                    st.extend(kids(x))
+                elif '->ptr' in show(x):
+                    continue
+                else:
+                    terms.append(x)
+            fa = an._fa_cache(fn)
+            hi = 0
+            unknown = None
+            for t in terms:
+                v = fa.eval_at(t, exit_cond)
+                if v[1] is None or v[1] > 2**31 - 2:
+                    unknown = show(t)
+                    break
+                hi += v[1]
+            strict = exit_cond['op'] == '<'
+            construct = 'pool-loop'
+            if unknown:
+                obs.append(Ob('POOL-FIT', fn.file, exit_cond['l'], fn.q, construct, VIOLATED,
+                              'the size `%s` of the record appended to a %d-byte pool has no established upper bound: a record that '
+                              'never fits a fresh pool makes the allocation loop run forever' % (unknown, K)))
+                continue
+            ok = hi < K if strict else hi <= K
+            obs.append(Ob('POOL-FIT', fn.file, exit_cond['l'], fn.q, construct, DISCHARGED if ok else VIOLATED,
+                          '' if ok else 'a record of up to %d bytes is admitted but a fresh %d-byte pool accepts only records with '
+                          'ptr + size %s len: the loop allocates pools forever for the largest admitted record' % (hi, K, exit_cond['op']),
+                          'record size <= %d < pool size %d' % (hi, K)))
+    return RuleResult('POOL-FIT', obs, 2, {})
